@@ -16,6 +16,50 @@ type in struct {
 	S    string  `json:"s_hex"`
 	P    string  `json:"p_hex,omitempty"`
 	Args []int64 `json:"args"` // integer arguments after the string(s); absent trailing ones omitted
+	// Sp: how each integer argument is spelled when passed (luaL_checkint converts): 0 number,
+	// 1 "N", 2 " N ", 3 "N.0", 4 "0xN" (N >= 0), 5 "Ne0", 6 the number N+-0.5 (truncated back to N),
+	// 7 the string "N.5" / "-N.5". Absent = all 0.
+	Sp []int `json:"sp,omitempty"`
+}
+
+// spell passes the integer x under spelling sp.
+func spell(x int64, sp int) lua.LValue {
+	half := "5"
+	switch sp {
+	case 1:
+		return lua.LString(fmt.Sprintf("%d", x))
+	case 2:
+		return lua.LString(fmt.Sprintf(" %d ", x))
+	case 3:
+		return lua.LString(fmt.Sprintf("%d.0", x))
+	case 4:
+		if x >= 0 {
+			return lua.LString(fmt.Sprintf("0x%x", x))
+		}
+		return lua.LString(fmt.Sprintf("%d", x))
+	case 5:
+		return lua.LString(fmt.Sprintf("%de0", x))
+	case 6:
+		if x >= 0 {
+			return lua.LNumber(float64(x) + 0.5)
+		}
+		return lua.LNumber(float64(x) - 0.5)
+	case 7:
+		return lua.LString(fmt.Sprintf("%d.%s", x, half))
+	}
+	return lua.LNumber(x)
+}
+
+func (c in) vals() []lua.LValue {
+	out := make([]lua.LValue, len(c.Args))
+	for i, x := range c.Args {
+		sp := 0
+		if i < len(c.Sp) {
+			sp = c.Sp[i]
+		}
+		out[i] = spell(x, sp)
+	}
+	return out
 }
 
 var L *lua.LState
@@ -84,22 +128,35 @@ func nontrivial(s []byte, args []int64) bool {
 }
 
 // runCase executes one input against the real code and records it.
+// spellRand, when set by the generator, makes runCase pass about a third of the integer
+// arguments under another spelling (numeric strings, non-integral numbers); the choice is stored in
+// the input, so a replay repeats it.
+var spellRand *lib.Rand
+
 func runCase(w *lib.Writer, c in) {
+	if c.Sp == nil && spellRand != nil && len(c.Args) > 0 && spellRand.Intn(100) < 30 {
+		c.Sp = make([]int, len(c.Args))
+		for i := range c.Sp {
+			if spellRand.Intn(100) < 70 {
+				c.Sp[i] = spellRand.Range(1, 7)
+			}
+		}
+	}
 	s := unhex(c.S)
 	p := unhex(c.P)
 	args := []lua.LValue{lua.LString(string(s))}
 	if c.Fn == "find" {
 		args = append(args, lua.LString(string(p)))
 		if len(c.Args) > 0 {
-			args = append(args, lua.LNumber(c.Args[0]))
+			args = append(args, c.vals()[0])
 		} else {
 			args = append(args, lua.LNumber(1)) // plain needs a 4th argument; init defaults to 1
 		}
 		args = append(args, lua.LTrue)
 	} else if c.Fn == "char" {
-		args = nums(c.Args)
+		args = c.vals()
 	} else {
-		args = append(args, nums(c.Args)...)
+		args = append(args, c.vals()...)
 	}
 	res, errs := call(c.Fn, args...)
 	id := w.NextID()
@@ -239,6 +296,14 @@ func corpus(w *lib.Writer) {
 		{Fn: "byte", S: h("abc"), Args: []int64{-10}},
 		{Fn: "sub", S: h("hello"), Args: []int64{-3}},
 		{Fn: "sub", S: h("hello"), Args: []int64{0, -100}},
+		// integer arguments given as numeric strings / non-integral numbers (luaL_checkint converts; fixed)
+		{Fn: "rep", S: h("x"), Args: []int64{3}, Sp: []int{1}},
+		{Fn: "sub", S: h("hello"), Args: []int64{2, 3}, Sp: []int{1, 1}},
+		{Fn: "sub", S: h("hello"), Args: []int64{-3, 4}, Sp: []int{2, 4}},
+		{Fn: "sub", S: h("hello"), Args: []int64{2, -2}, Sp: []int{6, 7}},
+		{Fn: "byte", S: h("abc"), Args: []int64{1, 2}, Sp: []int{3, 5}},
+		{Fn: "find", S: h("abcabc"), P: h("b"), Args: []int64{3}, Sp: []int{1}},
+		{Fn: "char", Args: []int64{65, 66, 255}, Sp: []int{1, 6, 4}},
 	} {
 		runCase(w, c)
 	}
